@@ -1280,6 +1280,12 @@ class Mps(MatrixProduct):
             if self.evolve_config.ivp_solver != "krylov":
                 coef = 1j
 
+        # the sweeps start from the centre: it must sit at the chain end that matches the sweep direction
+        if mps.to_right:
+            mps.ensure_right_canonical()
+        else:
+            mps.ensure_left_canonical()
+
         # construct the environment matrix
         # almost half is not used. Not a big deal.
         environ = Environ(mps, mpo)
@@ -1418,6 +1424,12 @@ class Mps(MatrixProduct):
             mps = self.to_complex()
             if self.evolve_config.ivp_solver != "krylov":
                 coef = 1j
+
+        # the sweeps start from the centre: it must sit at the chain end that matches the sweep direction
+        if mps.to_right:
+            mps.ensure_right_canonical()
+        else:
+            mps.ensure_left_canonical()
 
         # construct the environment matrix
         # almost half is not used. Not a big deal.
